@@ -768,6 +768,72 @@ def oracleC02 (p : Parsed) (fs : List (String × String)) : Option String :=
             else none
   | _ => none
 
+/-- The request message value the backend was handed (one message), from its body or, for a
+    Connect GET request, from its query string. -/
+def backendValue (o : Op) (fs : List (String × String)) : Option Bytes :=
+  let bh := parseHdrField (fieldOf fs "bh")
+  if fieldOf fs "bm" == toHex sGET then
+    let q := parseQuery ((fromHex (fieldOf fs "bq")).getD [])
+    let b64 := q.get (s "base64")
+    let msgStr := q.get (s "message")
+    let data? : Option Bytes := if b64 == [0x31] && !msgStr.isEmpty then b64UrlDecodeEither msgStr else some msgStr
+    let comp := nonIdentity (q.get (s "compression"))
+    data?.bind fun d => decodePayload (q.get (s "encoding")) comp comp.isSome d
+  else
+    let br := (fromHex (fieldOf fs "br")).getD []
+    let ct := bh.get (s "Content-Type")
+    if hasPrefix (s "application/grpc") ct || hasPrefix (s "application/connect+") ct then
+      let comp := nonIdentity (if hasPrefix (s "application/connect+") ct then bh.get (s "Connect-Content-Encoding") else bh.get (s "Grpc-Encoding"))
+      match messagesOfStream o.scodec comp br with
+      | some [v] => some v
+      | _ => none
+    else
+      let comp := nonIdentity (bh.get (s "Content-Encoding"))
+      decodePayload o.scodec comp comp.isSome br
+
+/-- C19 on one request: GET acceptance (405 + Allow otherwise) and the GET/POST decision toward a
+    Connect backend. -/
+def oracleC19 (p : Parsed) (fs : List (String × String)) : Option String :=
+  let r := p.sc.req
+  let ch := parseHdrField (fieldOf fs "ch")
+  match classifyRequest r with
+  | some c =>
+    match p.sc.conf.methods.find? (fun m => m.path == r.path) with
+    | none => none
+    | some m =>
+      if c != .rest && r.method != sPOST then
+        let ok := c == .connectGet && m.noSideEffects && r.method == sGET
+        if !ok then
+          let allow := if c == .connectGet && m.noSideEffects then s "GET,POST" else sPOST
+          if fieldOf fs "cs" != "405" then some "non-POST request that is not an allowed GET was not answered 405"
+          else if ch.get (s "Allow") != allow then some "405 without the right Allow header"
+          else if fieldOf fs "disp" != "none" then some "rejected GET reached a handler" else none
+        else if fieldOf fs "cs" == "405" then some "allowed Connect GET was answered 405" else
+        -- decision toward the backend
+        match branchOf p with
+        | .transcoded o =>
+          if fieldOf fs "disp" != "svc" then none else
+          let pl := o.plan fakeWorld
+          let issuedGet := fieldOf fs "bm" == toHex sGET
+          if !pl.useGet then (if issuedGet then some "GET issued although the conditions for GET do not hold" else none)
+          else
+            -- the client's message, as the model decodes it from the query string
+            match connectGetMessage fakeWorld o [] with
+            | .error _ => none
+            | .ok v =>
+              let want := (connectGetQuery fakeWorld o v).isSome
+              if issuedGet != want then some (if want then "POST issued although the GET URL fits" else "GET issued although the URL exceeds the limit")
+              else if issuedGet then
+                let bp := (fromHex (fieldOf fs "bp")).getD []
+                let bq := (fromHex (fieldOf fs "bq")).getD []
+                if bp.length + 1 + bq.length > o.conf.maxGetURL then some "issued GET URL is longer than the configured maximum"
+                else if backendValue o fs != some v then some "message in the issued GET URL differs from the client's"
+                else none
+              else none
+        | _ => none
+      else none
+  | none => none
+
 def controlKeys : List Bytes :=
   ["Content-Type", "Content-Length", "Content-Encoding", "Accept-Encoding", "Te", "Trailer", "Grpc-Timeout", "Grpc-Encoding",
    "Grpc-Accept-Encoding", "Grpc-Status", "Grpc-Message", "Grpc-Status-Details-Bin", "Connect-Timeout-Ms",
@@ -820,6 +886,7 @@ def specE2E (prop : String) (hexJson : String) (res : List String) : String :=
       | "C03" => some (oracleC03 p fs)
       | "C13" => some (oracleC13 p res)
       | "C02" => some (oracleC02 p fs)
+      | "C19" => some (oracleC19 p fs)
       | "C01" => (parseExpect p.json).map fun ex => oracleC01 p ex fs
       | "C04" => (parseExpect p.json).map fun ex => oracleC04 p ex fs
       | "C05" => some (oracleC05 p (parseExpect p.json) fs)
@@ -829,5 +896,25 @@ def specE2E (prop : String) (hexJson : String) (res : List String) : String :=
     | some none => "ok"
     | some (some why) => "fail " ++ why
 
+
+/-- C19 on a GET/POST pair with the same content: both are handled alike and the backend is handed
+    the same message. -/
+def specGetPost (hexA hexB : String) (res : List String) : String :=
+  let parse (h : String) := (fromHex h).bind (fun b => (Json.parse (bytesToString b)).toOption) |>.bind parseScenario
+  match parse hexA, parse hexB, (" ".intercalate res).splitOn " ## " with
+  | some pa, some pb, [ra, rb] =>
+    let fa := parseFields (ra.splitOn " ")
+    let fb := parseFields (rb.splitOn " ")
+    match branchOf pa, branchOf pb with
+    | .transcoded oa, .transcoded ob =>
+      if fieldOf fa "disp" != fieldOf fb "disp" then "fail GET and POST with the same content are dispatched differently"
+      else if fieldOf fa "disp" != "svc" then "ok"
+      else if fieldOf fa "bre" != "eof" || fieldOf fb "bre" != "eof" then "ok"
+      else match backendValue oa fa, backendValue ob fb with
+        | some va, some vb => if va == vb then "ok" else "fail message decoded from the GET query differs from the POST body"
+        | none, none => "ok"
+        | _, _ => "fail only one of GET/POST delivered a decodable message"
+    | _, _ => "ok"
+  | _, _, _ => "nospec"
 
 end Vanguard.Driver
